@@ -7,6 +7,9 @@ mod c03;
 mod c18;
 mod drive;
 mod emitted;
+mod exec;
+mod exec_props;
+mod gen_special;
 mod gen_ast;
 mod gen_prog;
 mod l2;
@@ -78,6 +81,11 @@ fn main() {
         match prop {
             "C01" | "C02" => layout_props::replay(&mut ctx, prop, &case),
             "C03" => c03::replay(&mut ctx, &case),
+            "C04" => exec_props::replay(&mut ctx, "C04", &case),
+            "C05" => exec_props::replay(&mut ctx, "C05", &case),
+            "C06" => exec_props::replay(&mut ctx, "C06", &case),
+            "C07" => exec_props::replay(&mut ctx, "C07", &case),
+            "C15" => exec_props::replay(&mut ctx, "C15", &case),
             "C14" | "C16" | "C17" => static_props::replay(&mut ctx, prop, &case),
             "C18" => c18::replay(&mut ctx, &case),
             _ => {
@@ -92,6 +100,11 @@ fn main() {
     match prop {
         "C01" | "C02" => layout_props::run(&mut ctx, prop),
         "C03" => c03::run(&mut ctx),
+        "C04" => exec_props::run(&mut ctx, "C04"),
+        "C05" => exec_props::run(&mut ctx, "C05"),
+        "C06" => exec_props::run(&mut ctx, "C06"),
+        "C07" => exec_props::run(&mut ctx, "C07"),
+        "C15" => exec_props::run(&mut ctx, "C15"),
         "C14" => static_props::run_c14(&mut ctx),
         "C16" => static_props::run_c16(&mut ctx),
         "C17" => static_props::run_c17(&mut ctx),
